@@ -231,18 +231,27 @@ inductive HRule
   | alwaysArray
   /-- `unyt_quantity(res, …)` whatever the shape -/
   | alwaysQuantity
-  /-- a unyt class is chosen by a test the translator does not recognise -/
+  /-- the returned expression mentions a unyt class, `.view(` or `type(x)(…)` in a way the
+      translator does not recognise -/
   | unknown
-  /-- no unyt object is built by this return statement -/
-  | other
+  /-- a public NumPy call or a call of a caller-supplied function: the class is decided by that
+      callee's own handler / NumPy's default path, not here -/
+  | redispatch
+  /-- built only from `np.X._implementation(…)` results and plain Python: no unyt object is built
+      by this return statement -/
+  | npImpl
+  /-- `None`, a constant, a string, a comparison -/
+  | noValue
 deriving DecidableEq, Repr, Inhabited
 
 def HRule.str : HRule → String
   | .timesUnit => "timesUnit" | .byNdim => "byNdim" | .alwaysArray => "alwaysArray"
-  | .alwaysQuantity => "alwaysQuantity" | .unknown => "unknown" | .other => "other"
+  | .alwaysQuantity => "alwaysQuantity" | .unknown => "unknown" | .redispatch => "redispatch"
+  | .npImpl => "npImpl" | .noValue => "noValue"
 
 def HRule.parse (s : String) : Option HRule :=
-  [HRule.timesUnit, .byNdim, .alwaysArray, .alwaysQuantity, .unknown, .other].find? (fun r => r.str == s)
+  [HRule.timesUnit, .byNdim, .alwaysArray, .alwaysQuantity, .unknown, .redispatch, .npImpl, .noValue].find?
+    (fun r => r.str == s)
 
 /-- class of a handler's return value for a raw result of shape `sh` -/
 def handlerClass (r : HRule) (sh : Shape) : Option Res :=
@@ -252,7 +261,9 @@ def handlerClass (r : HRule) (sh : Shape) : Option Res :=
   | .alwaysArray => some ⟨.uarray, sh⟩
   | .alwaysQuantity => (construct .uquantity sh).toOption
   | .unknown => none
-  | .other => none
+  | .redispatch => none
+  | .npImpl => none
+  | .noValue => none
 
 /-! ### objects with metadata: `__getitem__`, iteration -/
 
@@ -413,7 +424,10 @@ def quantityReshape (cls : PyCls) (s : Shape) (a : ReshapeArg) : Except SErr Res
     `__array_finalize__` protocol) and only change the shape -/
 inductive ViewOp
   | squeeze | squeezeAxis (ax : Int) | transpose | transposeAxes (p : List Nat)
-  | ravel | expandDims (k : Nat) | reshape (t : List Int)
+  | ravel | expandDims (k : Nat)
+  /-- `x.reshape(t)`; `isList`: the shape was passed as a list (`x.reshape([1, 2])`), not as a
+      tuple / separate ints — `unyt_quantity.reshape` compares the argument with `()` -/
+  | reshape (t : List Int) (isList : Bool)
   | repeat_ (n : Nat)
 deriving Repr
 
@@ -424,15 +438,17 @@ def viewShape (s : Shape) : ViewOp → Except SErr Shape
   | .transposeAxes p => transposeAxes s p
   | .ravel => .ok (ravel s)
   | .expandDims k => expandDims s k
-  | .reshape t => reshape s t
+  | .reshape t _ => reshape s t
   | .repeat_ n => .ok [size s * n]
 
 /-- `x.squeeze()`, `x.T`, `x.ravel()`, `x.reshape(t)`, … on a unyt object of class `cls`:
     `unyt_quantity.reshape` and `unyt_array.squeeze` are the only overrides -/
 def viewOp (cls : PyCls) (s : Shape) (op : ViewOp) : Except SErr Res :=
   match op with
-  | .reshape t =>
-    if cls.isQuantity then quantityReshape cls s (if t = [] then .emptyOrNone else .dims t)
+  | .reshape t isList =>
+    -- `shape == ()` holds for the empty tuple only: `[] == ()` is False, so `q.reshape([])`
+    -- takes the `unyt_array(self).reshape(shape)` branch
+    if cls.isQuantity then quantityReshape cls s (if t = [] ∧ isList = false then .emptyOrNone else .dims t)
     else match reshape s t with | .error e => .error e | .ok s' => .ok ⟨cls, s'⟩
   | .expandDims k =>
     -- `np.expand_dims` is `a.reshape(shape)`: a quantity goes through its `reshape` override
